@@ -2,6 +2,9 @@
 
 pub mod bytecode;
 pub mod codecs;
+pub mod sign;
+pub mod crypto;
+pub mod lock;
 pub mod validators;
 pub mod checker;
 pub mod vmops;
@@ -14,8 +17,12 @@ use std::io::Write;
 pub fn dispatch(driver: &str, args: &Args) -> i32 {
     match driver {
         "vmops" => vmops::main(args),
+        "stateread" => vmops::main_stateread(args),
         "bytecode" => bytecode::main(args),
         "codecs" => codecs::main(args),
+        "sign" => sign::main(args),
+        "crypto" => crypto::main(args),
+        "lock" => lock::main(args),
         "validators" => validators::main(args),
         "checker" => checker::main(args),
         "vmprog" => vmprog::main(args),
